@@ -37,6 +37,12 @@ def gen_line(d: D, table: dict, names: List[str]) -> dict:
         h = d.pick(["-h", "--help"])
         text = (base + extra + " " + h).strip() if d.p(0.7) else (base + " " + h + extra).strip()
         return {"kind": "help", "text": text}
+    if r < 44:
+        # the argument is well-formed but the method refuses the value: answered with the message, pool untouched
+        cands = ["pool-size -1", "pool-size -5", "cancel 99", "cancel 0 99", "cancel-group no-such-group", "get-group-ids no-such-group", "cancel -3"]
+        if "map" in table:
+            cands += ["map vt.ctl.hmod.quick [1,2] -n 0", "apply vt.ctl.hmod.not_async", "starmap vt.ctl.hmod.not_async [(1,)]", "doublestarmap vt.ctl.hmod.quick [] --num-concurrent -1"]
+        return {"kind": "badvalue", "text": d.pick(cands)}
     if r < 50:
         w = d.pick(["bogus", "Lock", "LOCK", "apply_", "cancel_all", "num_running", "start-", "x", "pool_size", "getgroupids", "-lock", "--lock"])
         return {"kind": "unknown", "text": w + d.pick(["", " 1", " -r", " a b c"])}
@@ -185,7 +191,7 @@ class C18Engine(Engine):
             return TaskPool(**kw)
 
         def not_a_command(ln: dict) -> bool:
-            if ln["kind"] in ("help", "unknown", "badargs"):
+            if ln["kind"] in ("help", "unknown", "badargs", "badvalue"):
                 return True
             if ln["kind"] == "junk":
                 return ln["text"].strip().split(" ")[0] not in cmdnames
@@ -266,6 +272,9 @@ class C18Engine(Engine):
                     reply = answered[i][-1][1]
                     if b"occurred in parser trying to convert" in reply or b"invalid " in reply and b"value" in reply or b"malformed" in reply:
                         labels.add("conversion-failure")
+                    if ln["kind"] == "badvalue":
+                        labels.add("value-rejected-by-method")
+                        continue      # its message may depend on the pool's state; only "answered once, nothing altered" applies
                     # the same line in a fresh session of an identical pool
                     fresh_pool = make_pool()
                     fs = Sess(fresh_pool, width=case["width"])
